@@ -144,6 +144,8 @@ class Driver:
             if len(revs) >= 2:
                 return revs[-2][0]
             return z64
+        if how == 'never':
+            return b'\x7f' + b'\xff' * 6 + b'\xfe'   # never a revision id
         if how == 'bogus':
             return p64(u64(cur[0]) - 1) if cur else p64(12345)
         raise ValueError(how)
